@@ -114,12 +114,15 @@ def build(P):
         for ch in chunks(progs, 300):
             yield ("round-trip", ch)
         # (stored type, reading type) mismatch matrix
-        tys = {"INTEGER": "5", "REAL": "2.5", "BOOLEAN": "TRUE", "CHAR": "'c'", "STRING": '"str"', "DATE": "1/2/2003", "Col": "Green", "Shape": "Line", "RecA": None, "RecB": None, "ArrI": None, "ArrS": None}
-        pre = ["TYPE Col = (Red, Green, Blue)", "TYPE Shape = (Dot, Line)", "TYPE RecA", "DECLARE f : INTEGER", "ENDTYPE", "TYPE RecB", "DECLARE g : STRING", "ENDTYPE"]
+        tys = {"INTEGER": "5", "REAL": "2.5", "BOOLEAN": "TRUE", "CHAR": "'c'", "STRING": '"str"', "DATE": "1/2/2003", "Col": "Green", "Shape": "Line", "RecA": None, "RecB": None, "RecA2": None, "Col2": "Mid", "ArrI": None, "ArrS": None, "ArrI3": None, "ArrR": None}
+        # RecA2 has RecA's layout and Col2 the size of Col: only the type NAME differs
+        pre = ["TYPE Col = (Red, Green, Blue)", "TYPE Shape = (Dot, Line)", "TYPE Col2 = (Low, Mid, High)", "TYPE RecA", "DECLARE f : INTEGER", "ENDTYPE", "TYPE RecB", "DECLARE g : STRING", "ENDTYPE", "TYPE RecA2", "DECLARE f : INTEGER", "ENDTYPE"]
         progs = []
         def decl(n, t):
             if t == "ArrI": return "DECLARE %s : ARRAY[1:2] OF INTEGER" % n
             if t == "ArrS": return "DECLARE %s : ARRAY[1:2] OF STRING" % n
+            if t == "ArrI3": return "DECLARE %s : ARRAY[1:3] OF INTEGER" % n
+            if t == "ArrR": return "DECLARE %s : ARRAY[1:2] OF RecA" % n
             return "DECLARE %s : %s" % (n, t)
         for st in tys:
             for rt in tys:
